@@ -233,12 +233,13 @@ SplitRows(p, t) ==
       rows == parents \o Flatten([k \in DOMAIN evs |-> Children(evs[k])])
       N == Len(rows)
       \* stable sort by onset: position of row i = number of rows strictly before it
-      Before(j, i) == LET oj == Num(rows[j]["onset"]) oi == Num(rows[i]["onset"]) IN oj < oi \/ (oj = oi /\ j < i)
+      \* (a kept parent row without a numeric onset sorts after all rows that have one, its onset stays n/a)
+      OnNum(r) == IF IsNum(r["onset"]) THEN Num(r["onset"]) ELSE MaxNum + 1
+      Before(j, i) == LET oj == OnNum(rows[j]) oi == OnNum(rows[i]) IN oj < oi \/ (oj = oi /\ j < i)
       Pos(i) == 1 + Cardinality({j \in 1..N : Before(j, i)})
       sorted == [q \in 1..N |-> rows[CHOOSE i \in 1..N : Pos(i) = q]]
-  IN IF \E i \in 1..Len(parents) : ~IsNum(parents[i]["onset"]) THEN Undef        \* a kept row without onset: its place is not defined
-     ELSE [Ok(ncols, sorted) EXCEPT !.u = \E q \in 1..(N - 1) : sorted[q]["onset"] = sorted[q + 1]["onset"]
-                                                                  /\ sorted[q] # sorted[q + 1]]
+  IN [Ok(ncols, sorted) EXCEPT !.u = \E q \in 1..(N - 1) : sorted[q]["onset"] = sorted[q + 1]["onset"]
+                                                             /\ sorted[q] # sorted[q + 1]]
 
 Apply(o, t) ==
   CASE o.op = "remove_rows" -> RemoveRows(o, t)
